@@ -653,6 +653,17 @@ func (c *TermCtx) Extract(a *Term, hi, lo int) *Term {
 		if lo < iw {
 			return c.SExt(c.Extract(a.args[0], iw-1, lo), w)
 		}
+	case OAdd, OSub, OMul:
+		// low bits of modular arithmetic depend only on the low bits of the operands
+		if lo == 0 {
+			return c.Bin(a.op, c.Extract(a.args[0], hi, 0), c.Extract(a.args[1], hi, 0))
+		}
+	case ONeg:
+		if lo == 0 {
+			return c.Un(ONeg, c.Extract(a.args[0], hi, 0))
+		}
+	case OBNot:
+		return c.Un(OBNot, c.Extract(a.args[0], hi, lo))
 	case OBAnd, OBOr, OBXor:
 		// push extract through bitwise ops when one side is constant (mask plumbing)
 		if a.args[0].op == OConst || a.args[1].op == OConst {
